@@ -29,7 +29,8 @@ assert "sbom-formats" in BP_TOML["valid-sbom-formats"]
 VALID_TOMLS = ("valid", "valid-sbom-formats")
 MANDATORY = ["CNB_TARGET_OS", "CNB_TARGET_ARCH", "CNB_TARGET_DISTRO_NAME", "CNB_TARGET_DISTRO_VERSION"]
 
-LAUNCH = {"processes": [{"type": "web", "command": ["run"], "args": ["a b"], "default": True}], "labels": [["k", "v"]], "slices": [["static/**"]]}
+# two processes are flagged default: what the buildpack returned is what is written (the lifecycle judges it)
+LAUNCH = {"processes": [{"type": "web", "command": ["run"], "args": ["a b"], "default": True}, {"type": "console", "command": ["sh"], "default": True}], "labels": [["k", "v"]], "slices": [["static/**"]]}
 # the launch configuration is set twice on the result builder: what was set last is the result
 LAUNCH_FIRST = {"processes": [{"type": "superseded", "command": ["old"]}], "labels": [["old", "1"]], "slices": [["old/*"]]}
 STORE = {"k": "v", "n": {"x": 1}}
@@ -145,8 +146,17 @@ def planpath_cfgs():
                 yield {"phase": "detect", "arg0": 0, "argc": 2, "toml": "valid", "bpdir": True, "env": {k: True for k in MANDATORY}, "variant": False, "stale": stale, "beh": beh, "planpath": pp}
 
 
+def missing_plan_cfgs():
+    for beh in (0, 1, len(BUILD_BEH) - 1):
+        for stale in (False, True):
+            yield {"phase": "build", "arg0": 0, "argc": 3, "toml": "valid", "bpdir": True, "env": {k: True for k in MANDATORY}, "variant": False, "stale": stale, "beh": beh, "planpath": 6}
+
+
 def reaches(cfg):
     """Reference: does this configuration reach detect/build code?"""
+    if cfg.get("planpath") == 6:
+        # build invoked with a buildpack plan path that does not exist: the plan is an input, the phase cannot start
+        return False
     return (cfg["arg0"] in (0, 2) and cfg["argc"] == (2 if cfg["phase"] == "detect" else 3) and cfg["toml"] in VALID_TOMLS
             and cfg["bpdir"] and all(cfg["env"].values()))
 
@@ -222,6 +232,8 @@ def judge(w, cfg):
                 open(w.p("plat").encode() + b"\xffform/env/VAR", "w").write("from-the-named-platform-dir")
                 full = [w.p("plat").encode() + b"\xffform", w.p("out", "plan.toml").encode()]
             plan_real = full[1]
+    if phase == "build" and pp == 6:
+        full[2] = w.p("no-such-plan.toml")
     path_of = lambda rel: plan_real if rel == "plan.toml" else w.p(rel)
     args = (full + ["extra1", "extra2"])[: cfg["argc"]]
     script = {}
@@ -385,8 +397,8 @@ def judge(w, cfg):
                 continue
             if want == "LAUNCH":
                 procs = doc.get("processes", [])
-                ok = (len(procs) == 1 and procs[0].get("type") == "web" and procs[0].get("command") == ["run"] and procs[0].get("args", []) == ["a b"]
-                      and procs[0].get("default", False) is True and doc.get("labels") == [{"key": "k", "value": "v"}] and doc.get("slices") == [{"paths": ["static/**"]}])
+                ok = (len(procs) == 2 and procs[0].get("type") == "web" and procs[0].get("command") == ["run"] and procs[0].get("args", []) == ["a b"]
+                      and procs[0].get("default", False) is True and procs[1].get("type") == "console" and procs[1].get("command") == ["sh"] and procs[1].get("default", False) is True and doc.get("labels") == [{"key": "k", "value": "v"}] and doc.get("slices") == [{"paths": ["static/**"]}])
                 if not ok or set(doc) - {"processes", "labels", "slices"}:
                     bad("launch-content", f"launch.toml {doc} differs from the returned launch configuration")
             elif want == "STORE-EMPTY":
@@ -425,7 +437,7 @@ def run(ctx):
     import itertools
     symbols = [(wi, var, ph) for wi in range(2) for var in (1, 2, 3) for ph in ("detect", "build")]
     seqs = [{"kind": "sequence", "symbols": [list(x) for x in seq]} for n in ((2, 3) if ctx.thorough else (2,)) for seq in itertools.product(symbols, repeat=n)]
-    cfgs = list(all_cfgs(ctx.thorough)) + list(planpath_cfgs()) + list(pathvar_cfgs()) + seqs
+    cfgs = list(all_cfgs(ctx.thorough)) + list(planpath_cfgs()) + list(missing_plan_cfgs()) + list(pathvar_cfgs()) + seqs
     # ownership of nondeterminism: the first configurations run twice must give identical outcomes
     probe = [run_cfg((i, c, ctx.scratch)) for i, c in enumerate(cfgs[:5])]
     probe2 = [run_cfg((i, c, ctx.scratch)) for i, c in enumerate(cfgs[:5])]
